@@ -22,13 +22,14 @@ const (
 )
 
 type Loc struct {
-	kind LocKind
-	ref  Term       // locObj
-	ty   types.Type // type of the stored value
-	base *Loc       // locField, locElem
-	idx  int        // locField
-	ix   Term       // locElem
-	g    *ssa.Global
+	local string // non-empty: a non-escaping local variable (Alloc) kept outside the shared heap
+	kind  LocKind
+	ref   Term       // locObj
+	ty    types.Type // type of the stored value
+	base  *Loc       // locField, locElem
+	idx   int        // locField
+	ix    Term       // locElem
+	g     *ssa.Global
 }
 
 type Obligation struct {
@@ -70,45 +71,46 @@ type writeSet struct {
 }
 
 type trans struct {
-	prog       *Program
-	vc         *VC
-	fn         *ssa.Function
-	fc         *FuncContract
-	key        string
-	vals       map[ssa.Value]Term
-	tuples     map[ssa.Value][]Term
-	stateSort  map[string]Sort
-	known      map[string]bool
-	in, out    map[int]State
-	reach      map[int]Term
-	edgeCond   map[[2]int]Term
-	obls       []*Obligation
-	errs       []string
-	warns      []string
-	loops      map[int]*loopInfo
-	loopList   []*loopInfo
-	order      []int
-	cur        State
-	curB       *ssa.BasicBlock
-	entry      State
-	final      bool // last pass: emit for real
-	pure       map[string]*fnRef
-	assumed    map[string]bool
-	specRefs   map[string]*fnRef
-	globals    map[string]string
-	ncall      int
-	nobl       map[string]int
-	deferred   []*ssa.Defer
-	retCount   int
-	heapReads  int
-	dispatched map[string]bool
-	axiomPkgs  map[string]bool
-	termVal    map[Term]ssa.Value
-	termBlock  map[Term]int
-	termFresh  map[Term]bool
-	loopWrites map[int]map[string]*writeSet // by loop head, from the previous pass
-	curWrites  map[int]map[string]*writeSet
+	prog        *Program
+	vc          *VC
+	fn          *ssa.Function
+	fc          *FuncContract
+	key         string
+	vals        map[ssa.Value]Term
+	tuples      map[ssa.Value][]Term
+	stateSort   map[string]Sort
+	known       map[string]bool
+	in, out     map[int]State
+	reach       map[int]Term
+	edgeCond    map[[2]int]Term
+	obls        []*Obligation
+	errs        []string
+	warns       []string
+	loops       map[int]*loopInfo
+	loopList    []*loopInfo
+	order       []int
+	cur         State
+	curB        *ssa.BasicBlock
+	entry       State
+	final       bool // last pass: emit for real
+	pure        map[string]*fnRef
+	assumed     map[string]bool
+	specRefs    map[string]*fnRef
+	globals     map[string]string
+	ncall       int
+	nobl        map[string]int
+	deferred    []*ssa.Defer
+	retCount    int
+	heapReads   int
+	dispatched  map[string]bool
+	axiomPkgs   map[string]bool
+	termVal     map[Term]ssa.Value
+	termBlock   map[Term]int
+	termFresh   map[Term]bool
+	loopWrites  map[int]map[string]*writeSet // by loop head, from the previous pass
+	curWrites   map[int]map[string]*writeSet
 	inHeadHavoc bool
+	localAllocs map[*ssa.Alloc]bool
 }
 
 func (tr *trans) errorf(f string, a ...any) {
@@ -185,7 +187,7 @@ func (tr *trans) havocAll(st State) {
 			tr.vc.assume(app(">=", n, old))
 			continue
 		}
-		if strings.HasPrefix(name, "call.") || strings.HasPrefix(name, "lock.") {
+		if strings.HasPrefix(name, "call.") || strings.HasPrefix(name, "lock.") || strings.HasPrefix(name, "L.") || strings.HasPrefix(name, "iter.") || strings.HasPrefix(name, "defer.") {
 			continue
 		}
 		tr.havocState(st, name)
@@ -227,7 +229,28 @@ func (tr *trans) mapHeap(m *types.Map, part string) string {
 
 // ---------------------------------------------------------------- locations
 
+func (tr *trans) localVar(name string, ty types.Type) string {
+	n := "L." + name
+	tr.stateSort[n] = tr.vc.sortOf(ty)
+	return n
+}
+
 func (tr *trans) load(st State, l *Loc) Term {
+	if l.kind == locObj && l.local != "" {
+		if u, ok := l.ty.Underlying().(*types.Struct); ok {
+			var fs []Term
+			for i := 0; i < u.NumFields(); i++ {
+				fs = append(fs, tr.getState(st, tr.localVar(l.local+"."+u.Field(i).Name(), u.Field(i).Type())))
+			}
+			return tr.vc.mkStruct(l.ty, fs)
+		}
+		return tr.getState(st, tr.localVar(l.local, l.ty))
+	}
+	if l.kind == locField && l.base.kind == locObj && l.base.local != "" {
+		if u, ok := l.base.ty.Underlying().(*types.Struct); ok {
+			return tr.getState(st, tr.localVar(l.base.local+"."+u.Field(l.idx).Name(), u.Field(l.idx).Type()))
+		}
+	}
 	switch l.kind {
 	case locObj:
 		switch u := l.ty.Underlying().(type) {
@@ -258,6 +281,23 @@ func (tr *trans) load(st State, l *Loc) Term {
 }
 
 func (tr *trans) store(st State, l *Loc, v Term) {
+	if l.kind == locObj && l.local != "" {
+		if u, ok := l.ty.Underlying().(*types.Struct); ok {
+			tr.vc.sortOf(l.ty)
+			for i := 0; i < u.NumFields(); i++ {
+				tr.setState(st, tr.localVar(l.local+"."+u.Field(i).Name(), u.Field(i).Type()), app(tr.vc.fieldAcc(l.ty, i), v))
+			}
+			return
+		}
+		tr.setState(st, tr.localVar(l.local, l.ty), v)
+		return
+	}
+	if l.kind == locField && l.base.kind == locObj && l.base.local != "" {
+		if u, ok := l.base.ty.Underlying().(*types.Struct); ok {
+			tr.setState(st, tr.localVar(l.base.local+"."+u.Field(l.idx).Name(), u.Field(l.idx).Type()), v)
+			return
+		}
+	}
 	switch l.kind {
 	case locObj:
 		switch u := l.ty.Underlying().(type) {
@@ -355,7 +395,59 @@ func (tr *trans) locOf(v ssa.Value) *Loc {
 		tr.errorf("locOf: %s is not a pointer", v.Name())
 		return &Loc{kind: locObj, ref: "0", ty: types.Typ[types.Int]}
 	}
-	return &Loc{kind: locObj, ref: tr.val(v), ty: p.Elem()}
+	l := &Loc{kind: locObj, ref: tr.val(v), ty: p.Elem()}
+	if al, ok := v.(*ssa.Alloc); ok && tr.isLocalAlloc(al) {
+		l.local = al.Name()
+	}
+	return l
+}
+
+// isLocalAlloc: the address of the variable never escapes (only direct loads, stores to it, and field
+// addresses used the same way), so calls cannot touch it and it lives outside the shared heap.
+func (tr *trans) isLocalAlloc(a *ssa.Alloc) bool {
+	if r, ok := tr.localAllocs[a]; ok {
+		return r
+	}
+	var okAddr func(v ssa.Value, depth int) bool
+	okAddr = func(v ssa.Value, depth int) bool {
+		refs := v.Referrers()
+		if refs == nil {
+			return false
+		}
+		for _, in := range *refs {
+			switch x := in.(type) {
+			case *ssa.DebugRef:
+			case *ssa.UnOp:
+				if x.Op != token.MUL {
+					return false
+				}
+			case *ssa.Store:
+				if x.Val == v {
+					return false
+				}
+			case *ssa.FieldAddr:
+				if depth > 0 {
+					return false // nested struct fields: keep in the shared heap (rare)
+				}
+				if !okAddr(x, depth+1) {
+					return false
+				}
+			default:
+				return false
+			}
+		}
+		return true
+	}
+	et := a.Type().Underlying().(*types.Pointer).Elem()
+	res := false
+	switch et.Underlying().(type) {
+	case *types.Array:
+		res = false
+	default:
+		res = okAddr(a, 0)
+	}
+	tr.localAllocs[a] = res
+	return res
 }
 
 // rootRef returns the reference term whose nil-ness guards the location, if any.
@@ -708,7 +800,7 @@ func TranslateFunc(prog *Program, fn *ssa.Function, fc *FuncContract) *trans {
 			stateSort: map[string]Sort{"$next": "Int"}, known: map[string]bool{}, in: map[int]State{}, out: map[int]State{}, reach: map[int]Term{},
 			edgeCond: map[[2]int]Term{}, pure: map[string]*fnRef{}, assumed: map[string]bool{}, specRefs: map[string]*fnRef{}, globals: map[string]string{},
 			nobl: map[string]int{}, dispatched: map[string]bool{}, termVal: map[Term]ssa.Value{}, termBlock: map[Term]int{}, termFresh: map[Term]bool{},
-			loopWrites: loopWrites, curWrites: map[int]map[string]*writeSet{}}
+			loopWrites: loopWrites, curWrites: map[int]map[string]*writeSet{}, localAllocs: map[*ssa.Alloc]bool{}}
 		for k := range known {
 			tr.known[k] = true
 		}
@@ -750,7 +842,7 @@ func TranslateFunc(prog *Program, fn *ssa.Function, fc *FuncContract) *trans {
 		stateSort: tr.stateSort, known: map[string]bool{}, in: map[int]State{}, out: map[int]State{}, reach: map[int]Term{},
 		edgeCond: map[[2]int]Term{}, pure: map[string]*fnRef{}, assumed: map[string]bool{}, specRefs: map[string]*fnRef{}, globals: map[string]string{},
 		nobl: map[string]int{}, dispatched: map[string]bool{}, termVal: map[Term]ssa.Value{}, termBlock: map[Term]int{}, termFresh: map[Term]bool{},
-		loopWrites: loopWrites, curWrites: map[int]map[string]*writeSet{}}
+		loopWrites: loopWrites, curWrites: map[int]map[string]*writeSet{}, localAllocs: map[*ssa.Alloc]bool{}}
 	for k := range known {
 		tr2.known[k] = true
 	}
@@ -1103,27 +1195,44 @@ func (tr *trans) loopEnv(li *loopInfo, predIdx int, st State) *Env {
 	return env
 }
 
+// loopItems: the user's loop items preceded by automatic invariants (range counters start at -1 and only grow).
 func (tr *trans) loopItems(li *loopInfo) []Item {
-	if li.spec == nil {
-		return nil
+	var items []Item
+	h := tr.fn.Blocks[li.head]
+	for _, in := range h.Instrs {
+		phi, ok := in.(*ssa.Phi)
+		if !ok {
+			break
+		}
+		if phi.Comment == "rangeindex" {
+			e, _ := ParseExpr("-1 <= rangeindex")
+			items = append(items, Item{Kind: "invariant", Label: "auto-rangeindex", E: e, Src: "-1 <= rangeindex"})
+		}
 	}
-	return li.spec.Items
+	if li.spec != nil {
+		items = append(items, li.spec.Items...)
+	}
+	return items
 }
 
 func (tr *trans) loopHeadAssume(li *loopInfo, st State) {
 	if li.spec == nil {
 		if tr.final {
-			tr.warnf("loop %d of %s has no invariant (only the havoc of modified state is assumed)", li.ord, tr.key)
+			tr.warnf("loop %d of %s has no invariant (only the havoc of modified state and automatic frames are assumed)", li.ord, tr.key)
 		}
+	}
+	if len(tr.loopItems(li)) == 0 {
 		return
 	}
 	env := tr.loopEnv(li, -1, st)
-	for _, it := range tr.fc.Items {
-		if it.Kind == "let" {
-			env.lets[it.Name] = it.E
+	if tr.fc != nil {
+		for _, it := range tr.fc.Items {
+			if it.Kind == "let" {
+				env.lets[it.Name] = it.E
+			}
 		}
 	}
-	for _, it := range li.spec.Items {
+	for _, it := range tr.loopItems(li) {
 		switch it.Kind {
 		case "let":
 			env.lets[it.Name] = it.E
@@ -1148,7 +1257,7 @@ func (tr *trans) loopEdge(li *loopInfo, from, head *ssa.BasicBlock, st State, ba
 			}
 		}
 	}
-	if li.spec == nil || !tr.final {
+	if len(tr.loopItems(li)) == 0 || !tr.final {
 		return
 	}
 	predIdx := -1
@@ -1165,7 +1274,7 @@ func (tr *trans) loopEdge(li *loopInfo, from, head *ssa.BasicBlock, st State, ba
 	}
 	ec := tr.edgeCond[[2]int{from.Index, head.Index}]
 	n := 0
-	for _, it := range li.spec.Items {
+	for _, it := range tr.loopItems(li) {
 		switch it.Kind {
 		case "let":
 			env.lets[it.Name] = it.E
